@@ -278,7 +278,15 @@ func (q *Tagged) Push(files []sts.Hashed) {
 		}
 		if orig, ok := q.byFile[file.GetName()]; ok {
 			// If a file by this name is already here, let's start over
+			before := orig.prev
 			q.removeFile(orig)
+			if q.headFile[group.name] == nil {
+				// It was the only file left of its group: the completed file
+				// before it (if any) goes back to the head, where it is kept so
+				// that whatever comes next - this very name, to begin with -
+				// still announces it as predecessor
+				q.headFile[group.name] = before
+			}
 			orig.unlink()
 			list := q.list[group.name]
 			// Have to brute force this since the list may not be sorted by
@@ -516,14 +524,7 @@ func (q *Tagged) addFile(file *sortedFile) {
 
 func (q *Tagged) removeFile(file *sortedFile) {
 	if q.headFile[file.group.name] == file {
-		if file.next != nil {
-			q.headFile[file.group.name] = file.next
-		} else {
-			// Nothing follows: fall back to the place holder before it (if any),
-			// which is kept at the head only so that whatever comes next - for
-			// instance this very file, pushed again - still names it as "prev"
-			q.headFile[file.group.name] = file.prev
-		}
+		q.headFile[file.group.name] = file.next
 	}
 	delete(q.byFile, file.orig.GetName())
 }
